@@ -11,13 +11,13 @@ PROPERTY = 'C14'
 RULE = ("x<<n and x>>n for shifting modes expand/trunc/keep x overflow saturate/wrap. expand: value == v*2^n (resp. v/2^n) exactly (Fractions), no flag, code in range of the grown format; "
         "trunc/keep: format unchanged, x>>n code == floor(code/2^n), x<<n code == code*2^n when representable and otherwise an in-range code equal to the clamp or the wrap image; n=0 is the identity; "
         "operand code, format and status untouched. Generated: exhaustive - every code of every format with n_word<=6 (n_frac in {0, n_word//2}), every count 0..n_word+3, scalars, plus the whole code set as one array "
-        "(expand mode sizes by the array-wide lowest set bit / largest magnitude); Hypothesis - boundary/random codes for n_word<=32, arrays up to 2-d. "
+        "(expand mode sizes by the array-wide lowest set bit / largest magnitude); Hypothesis - boundary/random codes for n_word<=32, arrays up to 2-d, the count given as a python int or a numpy integer. "
         "Non-trivial = n>=1 and (negative code or a bit shifted out/in past the word); distinct = distinct case keys.")
 ASSUMPTIONS = ['operands created from raw codes; n_word+n<=62', "x<<n in trunc/keep mode may clamp or wrap (statement's latitude)"]
 EXHAUSTIVE = False    # the whole quantifier is not enumerated; complete sub-domains are listed in EXHAUSTIVE_SUBDOMAINS
 EXHAUSTIVE_SUBDOMAINS = {'quick': ['all codes, n_word<=6, n_frac in {0,n_word//2}, counts 0..n_word+3, 3 shifting x 2 overflow modes, both directions; scalar and whole-format arrays'],
                          'thorough': ['same for n_word<=8']}
-REQUIRED_CLASSES = {'expand': 1000, 'keep/trunc': 1000, 'negative': 1000, 'bits-lost': 500, 'array': 300, 'n=0': 100}
+REQUIRED_CLASSES = {'expand': 1000, 'keep/trunc': 1000, 'negative': 1000, 'bits-lost': 500, 'array': 300, 'n=0': 100, 'numpy-count': 500}
 
 
 def check_shift(ctx, case):
@@ -30,14 +30,15 @@ def check_shift(ctx, case):
     shifting, overflow = case['shifting'], case['overflow']
     F = C.Fxp()
     lo, hi = M.rng(s, w)
-    sig = 'shift/%s/%s/%s' % (direction, shifting, 'scalar' if shape == () else 'array')
+    sig = 'shift/%s/%s/%s%s' % (direction, shifting, 'scalar' if shape == () else 'array', '/numpy-count' if case.get('count', 'int') != 'int' else '')
     ctx.ev(len(codes))
 
     def do():
         obj = codes[0] if shape == () else np.array(codes, dtype=np.int64).reshape(shape)
         x = F(obj, s, w, f, raw=True, shifting=shifting, overflow=overflow)
         st0 = dict(x.status)
-        z = (x << n) if direction == 'l' else (x >> n)
+        cnt = {'int': int, 'np.int64': np.int64, 'np.uint8': np.uint8, 'np.int32': np.int32, 'np.uint64': np.uint64}[case.get('count', 'int')](n)
+        z = (x << cnt) if direction == 'l' else (x >> cnt)
         return x, z, st0
     ok, res = ctx.guard(case, do, sig_prefix=sig + '/')
     if not ok:
@@ -120,6 +121,8 @@ def classify(ctx, case):
         ctx.cls('n=0')
     if case['shape'] != []:
         ctx.cls('array')
+    if case.get('count', 'int') != 'int':
+        ctx.cls('numpy-count')
     for k in case['codes']:
         k = int(k)
         lost = (k & ((1 << n) - 1)) != 0 if case['dir'] == 'r' else not (lo <= (k << n) <= hi)
@@ -181,7 +184,8 @@ def st_case(draw):
     codes = [min(max(code(), lo), hi) for _ in range(m)]
     n = draw(st.integers(0, min(w + 3, 62 - w)))
     return {'check': 'shift', 'fmt': list(fmt), 'codes': codes, 'shape': shape, 'n': n, 'dir': draw(st.sampled_from(['l', 'r'])),
-            'shifting': draw(st.sampled_from(['expand', 'trunc', 'keep'])), 'overflow': draw(st.sampled_from(['saturate', 'wrap']))}
+            'shifting': draw(st.sampled_from(['expand', 'trunc', 'keep'])), 'overflow': draw(st.sampled_from(['saturate', 'wrap'])),
+            'count': draw(st.sampled_from(['int', 'int', 'int', 'np.int64', 'np.uint8', 'np.int32', 'np.uint64']))}
 
 
 def body(ctx, case):
